@@ -741,3 +741,8 @@ MUTANTS = [
 # SESSION7 additions to the claim (clauses added in DESIGN section 12)
 CLAIM['technique'] += '; comparison-primitive recognition shared with C02 (memcmp or OR-fold helper)'
 CLAIM['text'] += ' C06-c (extended): a header verdict without a byte-wise comparison primitive is reported as a finding.'
+
+
+# SESSION7b additions to the claim (round 8, DESIGN 12.6)
+CLAIM['technique'] += '; stored-digest-loaded typestate on read_lead'
+CLAIM['text'] += ' C06-f: every success exit of read_lead() has copied the stored checksum of this lead into header_digest.'
